@@ -675,6 +675,15 @@ class Beam(_Simu):
                 return 3
             else:
                 raise ValueError("result error")
+        elif result in ["Sxx", "Syy", "Szz", "Syz", "Sxz", "Sxy"]:
+            # ordering of _Calc_Sigma_e_pg
+            if dim == 1:
+                components = ["Sxx"]
+            elif dim == 2:
+                components = ["Sxx", "Syy", "Sxy"]
+            else:
+                components = ["Sxx", "Syy", "Szz", "Syz", "Sxz", "Sxy"]
+            return components.index(result)
         elif result == "Ty" and dim >= 2 and self.useTimoshenko:
             return 2 if dim == 2 else 4
         elif result == "Tz" and dim == 3 and self.useTimoshenko:
